@@ -462,6 +462,130 @@ Qed.
 Lemma out_ids_layout q db1 db2 : Forall2 same_series db1 db2 -> out_ids rmatch q db1 = out_ids rmatch q db2.
 Proof. intros H. unfold out_ids. rewrite (tracked_layout q _ _ H). reflexivity. Qed.
 
+(* ---------- the time range of a query: datapoints are clipped one by one, in any arrival order ---------- *)
+Lemma in_range_spec lo hi t : in_range lo hi t = true <-> lo <= t <= hi.
+Proof. unfold in_range. rewrite andb_true_iff, !Z.leb_le. tauto. Qed.
+
+Lemma vals_at_clip lo hi t pts :
+  vals_at t (clip_pts lo hi pts) = if in_range lo hi t then vals_at t pts else [].
+Proof.
+  unfold vals_at, clip_pts. induction pts as [|p pts IH]; cbn [filter map].
+  - destruct (in_range lo hi t); reflexivity.
+  - destruct (Z.eqb (fst p) t) eqn:E.
+    + apply Z.eqb_eq in E. rewrite E. destruct (in_range lo hi t) eqn:R.
+      * cbn [filter]. rewrite E, Z.eqb_refl. cbn [map]. rewrite IH. reflexivity.
+      * exact IH.
+    + destruct (in_range lo hi (fst p)); [cbn [filter]; rewrite E|]; exact IH.
+Qed.
+
+Lemma series_entry_clip fn lo hi t pts :
+  series_entry fn (clip_pts lo hi pts) t = if in_range lo hi t then series_entry fn pts t else [].
+Proof. unfold series_entry. rewrite vals_at_clip. destruct (in_range lo hi t); reflexivity. Qed.
+
+Lemma clip_pts_app lo hi a b : clip_pts lo hi (a ++ b) = clip_pts lo hi a ++ clip_pts lo hi b.
+Proof. apply filter_app. Qed.
+
+Lemma s_points_clip lo hi s : s_points (clip_series lo hi s) = clip_pts lo hi (s_points s).
+Proof.
+  unfold s_points. cbn [clip_series s_chunks]. induction (s_chunks s) as [|c cs IH]; [reflexivity|].
+  cbn [map concat]. rewrite clip_pts_app, IH. reflexivity.
+Qed.
+
+Lemma nth_series_clip lo hi db i : nth_series (clip_db lo hi db) i = clip_pts lo hi (nth_series db i).
+Proof.
+  unfold nth_series, clip_db. rewrite nth_error_map. destruct (nth_error db i); cbn; [apply s_points_clip|reflexivity].
+Qed.
+
+(* the tag search reads names and labels only *)
+Definition same_meta (s1 s2 : series) : Prop := s_name s1 = s_name s2 /\ s_labels s1 = s_labels s2.
+
+Lemma tree_vals_meta name k db1 db2 : Forall2 same_meta db1 db2 ->
+  forall i, tree_vals_from name k db1 i = tree_vals_from name k db2 i.
+Proof.
+  induction 1 as [|s1 s2 d1 d2 [Hn Hl] _ IH]; intros i; cbn; [reflexivity|].
+  rewrite Hn, Hl, IH. reflexivity.
+Qed.
+
+Lemma key_file_meta k db1 db2 : Forall2 same_meta db1 db2 -> key_file_exists k db1 = key_file_exists k db2.
+Proof.
+  unfold key_file_exists. induction 1 as [|s1 s2 d1 d2 [Hn Hl] _ IH]; cbn; [reflexivity|].
+  unfold has_key at 1 3. rewrite Hl, IH. reflexivity.
+Qed.
+
+Lemma all_keys_meta db1 db2 : Forall2 same_meta db1 db2 -> all_keys db1 = all_keys db2.
+Proof.
+  unfold all_keys. intros H. generalize (@nil str). induction H as [|s1 s2 d1 d2 [Hn Hl] _ IH]; intros acc; cbn; [reflexivity|].
+  rewrite Hl. apply IH.
+Qed.
+
+Lemma tracked_meta q db1 db2 : Forall2 same_meta db1 db2 -> tracked rmatch q db1 = tracked rmatch q db2.
+Proof.
+  intros H. unfold tracked. destruct (flags q) as [sel gal].
+  unfold apply_filters. rewrite (all_keys_meta _ _ H).
+  destruct (reorder _) as [o s]. f_equal. apply fold_left_ext. intros [first tr] f.
+  unfold step_filter, tree_vals. rewrite (key_file_meta _ _ _ H), (tree_vals_meta _ _ _ _ H). reflexivity.
+Qed.
+
+Lemma clip_db_meta lo hi db : Forall2 same_meta (clip_db lo hi db) db.
+Proof. induction db as [|s db IH]; cbn; constructor; [split; reflexivity|exact IH]. Qed.
+
+(* a series without a datapoint in the range is still found by the tag search *)
+Lemma tracked_clip lo hi q db : tracked rmatch q (clip_db lo hi db) = tracked rmatch q db.
+Proof. apply tracked_meta, clip_db_meta. Qed.
+
+Lemma agg_at_clip name fn fields without lo hi db tr gid t :
+  agg_at name fn fields without (clip_db lo hi db) tr gid t =
+  if in_range lo hi t then agg_at name fn fields without db tr gid t else None.
+Proof.
+  assert (E : forall e : nat * str, series_entry fn (nth_series (clip_db lo hi db) (fst e)) t =
+                                    if in_range lo hi t then series_entry fn (nth_series db (fst e)) t else [])
+    by (intros e; rewrite nth_series_clip; apply series_entry_clip).
+  assert (G : gid_entries fn fields without (clip_db lo hi db) tr gid t =
+              if in_range lo hi t then gid_entries fn fields without db tr gid t else []).
+  { unfold gid_entries. induction tr as [|e tr IH]; cbn [flat_map]; [destruct (in_range lo hi t); reflexivity|].
+    rewrite IH, E. destruct (in_range lo hi t); [reflexivity|]. destruct (str_eqb _ gid); reflexivity. }
+  assert (I : ids_with_entry fn (clip_db lo hi db) tr t =
+              if in_range lo hi t then ids_with_entry fn db tr t else []).
+  { unfold ids_with_entry. destruct (in_range lo hi t) eqn:R.
+    - apply filter_ext. intros g. generalize tr at 1 2. intros tr0.
+      induction tr0 as [|e tr0 IH]; cbn [existsb]; [reflexivity|]. rewrite IH, E. reflexivity.
+    - generalize (dedup_str (map snd tr)). intros l. induction l as [|g l IH]; cbn [filter]; [reflexivity|].
+      assert (X : existsb (fun e : nat * str => str_eqb (snd e) g &&
+                  negb (Nat.eqb (length (series_entry fn (nth_series (clip_db lo hi db) (fst e)) t)) 0)) tr = false).
+      { clear G IH. induction tr as [|e tr0 IH0]; cbn [existsb]; [reflexivity|]. rewrite IH0, E. cbn. rewrite andb_false_r. reflexivity. }
+      rewrite X. exact IH. }
+  unfold agg_at. rewrite G, I. destruct (in_range lo hi t); [reflexivity|].
+  destruct fn, fields; try reflexivity. destruct (str_eqb gid _); reflexivity.
+Qed.
+
+(* the answer over the range [lo, hi] is the answer over all data, restricted to lo <= t <= hi:
+   no sample inside the range is lost, none outside is reported, whatever the arrival order of the
+   datapoints and however they lie in blocks *)
+Theorem range_is_restriction lo hi q db gid t :
+  result_at_range rmatch lo hi q db gid t = if in_range lo hi t then result_at rmatch q db gid t else None.
+Proof.
+  unfold result_at_range, result_at. destruct (first_agg q) as [[fn fields] without].
+  rewrite tracked_clip. apply agg_at_clip.
+Qed.
+
+Theorem range_split_invariant lo hi q db1 db2 gid t : Forall2 same_series db1 db2 ->
+  result_at_range rmatch lo hi q db1 gid t = result_at_range rmatch lo hi q db2 gid t.
+Proof. intros H. rewrite !range_is_restriction, (split_invariant q db1 db2 gid t H). reflexivity. Qed.
+
+(* every reported sample lies in the range and is the sample of the unclipped answer *)
+Theorem range_samples_inside lo hi q db e t v :
+  In e (run_query_range rmatch lo hi q db) -> In (t, v) (snd e) ->
+  lo <= t <= hi /\ result_at rmatch q db (fst e) t = Some v.
+Proof.
+  unfold run_query_range, run_query. intros He Hv. apply in_flat_map in He. destruct He as [gid [_ He]].
+  destruct (flat_map _ _) as [|x l] eqn:El in He; [destruct He|]. destruct He as [<-|[]]. cbn [fst snd] in *.
+  rewrite <- El in Hv. apply in_flat_map in Hv. destruct Hv as [t' [_ Hv]].
+  fold (result_at_range rmatch lo hi q db gid t') in Hv. rewrite range_is_restriction in Hv.
+  destruct (in_range lo hi t') eqn:R; [|destruct Hv].
+  destruct (result_at rmatch q db gid t') eqn:Er; [|destruct Hv]. destruct Hv as [Hv|[]].
+  injection Hv as <- <-. split; [apply in_range_spec, R|exact Er].
+Qed.
+
 (* ---------- selection: tag keys, filter ordering ---------- *)
 Lemma mem_str_In k l : mem_str k l = true <-> In k l.
 Proof.
@@ -1541,6 +1665,28 @@ Proof. vm_compute. repeat split; reflexivity. Qed.
 Example without_guard_nonvacuous : without_guard [w_a] [mk w_b MNe [50]] = true.
 Proof. reflexivity. Qed.
 
+
+(* ---------- block / segment pruning by the time range is invisible ---------- *)
+(* a block is skipped when CheckRangeOverLap(LowTs, HighTs) fails; [bounds] are ANY bounds of the
+   timestamps in the block (the block summary covers all series of the block) *)
+Theorem block_pruning_sound (lo hi : Z) (bounds : Z * Z) (pts : list pt) :
+  (forall p, In p pts -> (fst bounds <= fst p <= snd bounds)%Z) ->
+  read_block lo hi bounds pts = clip_pts lo hi pts.
+Proof.
+  intros Hb. unfold read_block. destruct (range_overlap lo hi (fst bounds) (snd bounds)) eqn:O; [reflexivity|].
+  unfold clip_pts. induction pts as [|p pts IH]; [reflexivity|]. cbn [filter].
+  assert (R : in_range lo hi (fst p) = false).
+  { specialize (Hb p (or_introl eq_refl)). unfold range_overlap in O. unfold in_range.
+    destruct (Z.leb_spec lo (fst p)), (Z.leb_spec (fst p) hi); try reflexivity. exfalso.
+    destruct (Z.leb_spec lo (fst bounds)), (Z.leb_spec (fst bounds) hi), (Z.leb_spec lo (snd bounds)),
+      (Z.leb_spec (snd bounds) hi), (Z.leb_spec (fst bounds) lo), (Z.leb_spec hi (snd bounds)); cbn in O; try discriminate; lia. }
+  rewrite R. apply IH. intros q Hq. apply Hb. right. exact Hq.
+Qed.
+
+(* the check is not vacuous: a block around the range, and one that only touches its end, are read *)
+Example range_overlap_examples :
+  (range_overlap 10 20 5 30 = true /\ range_overlap 10 20 20 40 = true /\ range_overlap 10 20 21 40 = false)%Z.
+Proof. repeat split. Qed.
 
 (* ---------- the relations for whole queries (same selector, same grouping clause) ---------- *)
 Section Queries.
